@@ -4,8 +4,10 @@
 package c10
 
 import (
+	"context"
 	"encoding/json"
 	"fmt"
+	"io"
 	"math/rand"
 	"net/http"
 	"net/url"
@@ -34,6 +36,7 @@ func init() {
 			"a third of the shared-Runtime cases build the other operations while Runtime.BasePath and Runtime.Host hold other values (the case's own are assigned to the fields afterwards); " +
 			"1% of the values and a few static words are 63..4096 bytes long with reserved bytes at the ends and at the 64-byte boundaries; a third of the static queries leave '/' ':' '@' ',' unencoded and a quarter of their values look like paths or URLs ('https://h/cb' '/srv/data/' 'a/../b' 'src/./gen' '//'); " +
 			"values with '$' ('$1' '${a}' '$$' ...), placeholder names that are siblings under pattern matching ('a.b' 'a-b' 'axb'); " +
+			"one case in twenty is also sent once, through Runtime.Submit or the Submit of the Runtime's opentracing / opentelemetry wrapper (context without span), into a recording RoundTripper (no network): the URL the transport is handed is judged like the built ones and must be the same; " +
 			"oracle = reference builder written from the statement. non-trivial = case with >= 1 placeholder whose value needs escaping, or >= 1 query-name collision between caller/pattern/base; " +
 			"distinct by (base, pattern, values, caller query)",
 		Assumptions: []string{
@@ -45,6 +48,7 @@ func init() {
 			"a caller query parameter set with zero values is not generated; the order of different query names in the encoded query is not judged (per-name value order is)",
 			"static query strings are well-formed name=value pairs (names and values percent-encoded by the generator; '/' ':' '@' ',', which RFC 3986 allows as they are in a query, are sometimes left unencoded and then stand for themselves)",
 			"a parameter set by the authentication writer is a caller-level parameter like one set by the params writer",
+			"the URL the client builds is the URL of the request it hands to its transport: what Submit sends is judged with the same oracle as what CreateHttpRequest returns, and a Submit that fails where the build succeeds is a build error",
 			"the URL of an operation is a function of the Runtime's configuration (what the exported fields Host and BasePath hold when the operation is built) and of the operation: what was built before on the same Runtime, and under which earlier configuration, does not enter the expectation",
 		},
 		MinNontrivial: 500,
@@ -101,6 +105,12 @@ type Case struct {
 	Reassign       bool   `json:"reassign_fields,omitempty"`
 	BeforeBasePath mon.Q  `json:"before_base_path,omitempty"`
 	BeforeHost     string `json:"before_host,omitempty"`
+	// Submit: after its CreateHttpRequest builds the case is also sent once (first call order) into a recording
+	// RoundTripper (no network), through "runtime" = Runtime.Submit, "opentracing" = Runtime.WithOpenTracing().Submit
+	// or "opentelemetry" = Runtime.WithOpenTelemetry().Submit (both with a context that carries no span). The URL
+	// of the request the transport is handed is the URL the client built: it is judged like the others and must
+	// be the same.
+	Submit string `json:"submit,omitempty"`
 }
 
 // Op is an operation built on a shared Runtime before the case proper.
@@ -455,21 +465,55 @@ type built struct {
 	escPath   string
 	rawQuery  string
 	fragment  string
+	via       string // "" = CreateHttpRequest; else the Submit entry point whose transport recorded this URL
+}
+
+// recorder is the transport of every Runtime of this monitor: it records the URL of the request it is handed
+// and answers 200 without any network.
+type recorder struct {
+	calls int
+	got   built
+}
+
+func (rc *recorder) RoundTrip(r *http.Request) (*http.Response, error) {
+	rc.calls++
+	rc.got = observe(r)
+	return &http.Response{StatusCode: 200, Status: "200 OK", Proto: "HTTP/1.1", ProtoMajor: 1, ProtoMinor: 1,
+		Header: http.Header{"Content-Type": {"application/json"}}, Body: io.NopCloser(strings.NewReader("{}")), Request: r}, nil
+}
+
+// observe reads what a request says about its URL.
+func observe(req *http.Request) built {
+	var b built
+	if req == nil || req.URL == nil {
+		b.err = "nil request or URL without error"
+		return b
+	}
+	b.urlString = req.URL.String()
+	b.scheme = req.URL.Scheme
+	b.host = req.URL.Host
+	b.reqHost = req.Host
+	b.escPath = req.URL.EscapedPath()
+	b.rawQuery = req.URL.RawQuery
+	b.fragment = req.URL.Fragment + req.URL.RawFragment
+	return b
 }
 
 // open obtains the Runtime of a case through its entry point and builds the Before operations on it.
-func open(c *Case) *client.Runtime {
+func open(c *Case) (*client.Runtime, *recorder) {
 	var rt *client.Runtime
+	rec := &recorder{}
 	ts := append([]string(nil), c.TSchemes...) // the oracle keeps its own list
 	switch c.Entry {
 	case "with-client":
-		rt = client.NewWithClient(c.Host, string(c.BasePath), ts, &http.Client{})
+		rt = client.NewWithClient(c.Host, string(c.BasePath), ts, &http.Client{Transport: rec})
 	case "field":
 		rt = client.New(c.Host, "/", ts)
 		rt.BasePath = string(c.BasePath)
 	default:
 		rt = client.New(c.Host, string(c.BasePath), ts)
 	}
+	rt.Transport = rec // never the network, whatever is submitted
 	if c.Reassign {
 		rt.BasePath = string(c.BeforeBasePath)
 		rt.Host = c.BeforeHost
@@ -496,15 +540,27 @@ func open(c *Case) *client.Runtime {
 		op := &runtime.ClientOperation{ID: "before", Method: method, PathPattern: string(o.Pattern), Schemes: append([]string(nil), o.OSchemes...), Params: writer}
 		mon.Catch(func() { _, _ = rt.CreateHttpRequest(op) })
 	}
-	return rt
+	return rt, rec
 }
 
 // buildOnce builds the case on a Runtime of its own.
-func buildOnce(c *Case, order []int) built { return buildOn(open(c), c, order) }
+func buildOnce(c *Case, order []int) built {
+	rt, _ := open(c)
+	return buildOn(rt, c, order)
+}
 
-// buildOn builds the case once on the given Runtime, making the calls in the given order.
-func buildOn(rt *client.Runtime, c *Case, order []int) built {
-	var b built
+// rebuild makes the build that gave b once more, on a Runtime of the case c (a variant of b's own case).
+func rebuild(c *Case, order []int, b built) built {
+	if b.via != "" {
+		rt, rec := open(c)
+		return submitOn(rt, rec, c, order)
+	}
+	return buildOnce(c, order)
+}
+
+// operation makes the ClientOperation of the case, whose writers make the calls in the given order, and
+// installs the authentication writer where the case wants it.
+func operation(rt *client.Runtime, c *Case, order []int) *runtime.ClientOperation {
 	np := len(c.Params)
 	viaAuth := map[int]bool{}
 	for _, i := range c.AuthCalls {
@@ -546,6 +602,13 @@ func buildOn(rt *client.Runtime, c *Case, order []int) built {
 			op.AuthInfo = auth
 		}
 	}
+	return op
+}
+
+// buildOn builds the case once on the given Runtime, making the calls in the given order.
+func buildOn(rt *client.Runtime, c *Case, order []int) built {
+	var b built
+	op := operation(rt, c, order)
 	var req *http.Request
 	var err error
 	pv, st := mon.Catch(func() { req, err = rt.CreateHttpRequest(op) })
@@ -557,17 +620,36 @@ func buildOn(rt *client.Runtime, c *Case, order []int) built {
 		b.err = err.Error()
 		return b
 	}
-	if req == nil || req.URL == nil {
-		b.err = "nil request or URL without error"
-		return b
+	return observe(req)
+}
+
+// submitOn sends the case once on the given Runtime (whose transport is rec), through the entry point c.Submit
+// names, and gives the URL of the request the transport was handed.
+func submitOn(rt *client.Runtime, rec *recorder, c *Case, order []int) built {
+	op := operation(rt, c, order)
+	op.Reader = runtime.ClientResponseReaderFunc(func(runtime.ClientResponse, runtime.Consumer) (interface{}, error) { return nil, nil })
+	var tr runtime.ClientTransport = rt
+	switch c.Submit {
+	case "opentracing":
+		tr, op.Context = rt.WithOpenTracing(), context.Background()
+	case "opentelemetry":
+		tr, op.Context = rt.WithOpenTelemetry(), context.Background()
 	}
-	b.urlString = req.URL.String()
-	b.scheme = req.URL.Scheme
-	b.host = req.URL.Host
-	b.reqHost = req.Host
-	b.escPath = req.URL.EscapedPath()
-	b.rawQuery = req.URL.RawQuery
-	b.fragment = req.URL.Fragment + req.URL.RawFragment
+	before := rec.calls
+	var err error
+	pv, st := mon.Catch(func() { _, err = tr.Submit(op) })
+	b := built{via: c.Submit}
+	switch {
+	case pv != nil:
+		b.panicked = fmt.Sprintf("%v\n%s", pv, st)
+	case err != nil:
+		b.err = "Submit: " + err.Error()
+	case rec.calls != before+1:
+		b.err = fmt.Sprintf("Submit reported success and the transport was handed %d requests", rec.calls-before)
+	default:
+		b = rec.got
+		b.via = c.Submit
+	}
 	return b
 }
 
@@ -640,8 +722,9 @@ func runCase(m *mon.M, c *Case) {
 	var firstKey string
 	var firstOrder []int
 	var shared *client.Runtime
+	var sharedRec *recorder
 	if c.Shared {
-		shared = open(c)
+		shared, sharedRec = open(c)
 		m.Class(fmt.Sprintf("shared-runtime/before=%d", len(c.Before)))
 	}
 	if c.Entry != "" {
@@ -675,6 +758,30 @@ func runCase(m *mon.M, c *Case) {
 					fmt.Sprintf("same case, two builds differ: order %v -> %s ; order %v -> %s", firstOrder, firstKey, ord, key), two)
 			}
 			judge(m, c, ref, values, b, ord, feat)
+		}
+	}
+	if c.Submit != "" {
+		// what is sent: the URL the transport is handed is the URL the client built
+		ord := orders[0]
+		m.Eval(1)
+		var b built
+		if shared != nil {
+			b = submitOn(shared, sharedRec, c, ord)
+		} else {
+			rt, rec := open(c)
+			b = submitOn(rt, rec, c, ord)
+		}
+		m.Class("submitted/" + c.Submit)
+		key := b.key()
+		if _, seen := judged[key]; !seen {
+			one := minimal(c, [][]int{ord})
+			if b.err == "" && b.panicked == "" && !strings.HasPrefix(firstKey, "error: ") && firstKey != "panic" {
+				m.Violate("sent-url-differs-from-built/"+feat+"/submit-"+c.Submit+reusedSuffix(c, ord, b),
+					fmt.Sprintf("same case, same call order %v: CreateHttpRequest -> %s ; the transport of Submit was handed -> %s", ord, firstKey, key), one)
+			}
+			judge(m, c, ref, values, b, ord, feat)
+		} else {
+			m.Class("submitted/same-url-as-built")
 		}
 	}
 	m.SetAdd("builds-per-case", fmt.Sprint(len(orders)*rep))
@@ -755,6 +862,10 @@ func judge(m *mon.M, c *Case, ref *refURL, values map[string]string, b built, or
 	viol := func(sig, detail string, cs interface{}) {
 		if !sfxDone {
 			sfx, sfxDone = reusedSuffix(c, ord, b), true
+		}
+		if b.via != "" {
+			sig += "/submit-" + b.via
+			detail = "as handed to the transport by Submit (" + b.via + "): " + detail
 		}
 		m.Violate(sig+sfx, detail+beforeNote(c), cs)
 	}
@@ -927,7 +1038,7 @@ func reusedSuffix(c *Case, ord []int, b built) string {
 	}
 	fresh := *c
 	fresh.Shared, fresh.Before, fresh.Reassign = false, nil, false
-	if buildOnce(&fresh, ord).key() != b.key() {
+	if rebuild(&fresh, ord, b).key() != b.key() {
 		return "/only-on-reused-runtime"
 	}
 	return ""
@@ -1379,6 +1490,9 @@ func genCase(r *rand.Rand, norders int) *Case {
 			c.AuthCalls = append(c.AuthCalls, len(c.Params)+r.Intn(len(c.Query)))
 		}
 		c.AuthDefault = len(c.AuthCalls) > 0 && r.Intn(3) == 0
+	}
+	if r.Intn(20) == 0 {
+		c.Submit = []string{"runtime", "runtime", "opentracing", "opentelemetry"}[r.Intn(4)]
 	}
 	return c
 }
